@@ -47,9 +47,14 @@ MkGame(n, rc, op) ==
          tr     |-> [s \in 1..n |-> row(s)],
          final  |-> fin]
 
+\* every play is absorbed in a sink whatever the players do (final states need not be
+\* absorbing): the solver terminates on such a game, so the full pipeline can be run
+Terminating(g) == GfpStay(g, States(g) \ Sinks(g)) = {}
+
 Describe(fam, g) ==
     [fam |-> fam, g |-> g,
      stopping |-> IsStopping(g),
+     solvemode |-> Terminating(g),
      acyclic  |-> AcyclicOn(g, States(g))]
 
 RandGame(n) ==
@@ -110,6 +115,22 @@ HistFamilyRaw ==
                                  calls |-> RandomElement(Scripts)])]
 HistFamily == SelectSeq(HistFamilyRaw, LAMBDA d : d.stopping)
 
+\* the caller EDITS its description between calls (same Python objects, new content):
+\* g2 is g with one transition redirected; calls before and after the edit
+EditOf(g) ==
+    LET s == RandomElement(1..g.n)
+        k == RandomElement(DOMAIN g.tr[s])
+        t == RandomElement(1..g.n)
+    IN  [g EXCEPT !.tr[s][k].t = t]
+EditFamilyRaw ==
+    [i \in 1..K |-> LET g  == TLCEval(HistBase(i))
+                        g2 == TLCEval(EditOf(g))
+                    IN  TLCEval([fam |-> "edit", g |-> g, g2 |-> g2,
+                                 stopping |-> IsStopping(g) /\ IsStopping(g2) /\ g2 # g,
+                                 acyclic |-> AcyclicOn(g, States(g)),
+                                 calls |-> RandomElement(Scripts)])]
+EditFamily == SelectSeq(EditFamilyRaw, LAMBDA d : d.stopping)
+
 (* Presentations (C13): a game, a random renumbering / reordering /        *)
 (* renaming, and the transformed game.                                     *)
 Renamings == { <<>>,
@@ -127,7 +148,7 @@ PermBase(i) ==
 PermFamily ==
     [i \in 1..K |-> LET g == TLCEval(PermBase(i))
                         rel == TLCEval(RandRel(g))
-                    IN  TLCEval([fam |-> "perm", g |-> g, stopping |-> IsStopping(g),
+                    IN  TLCEval([fam |-> "perm", g |-> g, stopping |-> IsStopping(g), solvemode |-> Terminating(g),
                                  acyclic |-> AcyclicOn(g, States(g)),
                                  rel |-> rel, h |-> TransformGame(g, rel)])]
 
@@ -170,6 +191,45 @@ TinyChains ==
     IN  { mk(o1, o2, o3, W, alt, r) :
             o1 \in {P1, P2, PR}, o2 \in {P1, P2, PR}, o3 \in {P1, P2, PR},
             W \in {3000000, 10000000}, alt \in BOOLEAN, r \in {0, 1} }
+
+-----------------------------------------------------------------------------
+(* NonAbs: a final state that is NOT absorbing (any owner) whose successors *)
+(* differ in reachability value and in reward, reached from the initial     *)
+(* state; the game is acyclic, so the pipeline terminates.                  *)
+(*   1 init, 2 final non-absorbing, 3 half (PR -> win / lose, reward 5),    *)
+(*   4 dead (-> lose), 5 other (PR reward 1 -> win), 6 lose, 7 win          *)
+NonAbsGames ==
+    LET mk(o1, o2, acts, fin, r2) ==
+          [n |-> 7,
+           owner  |-> <<o1, o2, PR, PR, PR, PR, PR>>,
+           reward |-> <<1, r2, 5, 2, 1, 0, 0>>,
+           tr |-> << IF o1 = PR THEN <<Tr("", 1, 2), Tr("", 1, 5)>> ELSE <<Tr("go", 0, 2), Tr("alt", 0, 5)>>,
+                     IF o2 = PR THEN [j \in DOMAIN acts |-> Tr("", j, acts[j])]
+                     ELSE [j \in DOMAIN acts |-> Tr(Lab[j], 0, acts[j])],
+                     <<Tr("", 1, 7), Tr("", 1, 6)>>,
+                     <<Tr("", 1, 6)>>,
+                     <<Tr("", 1, 7)>>,
+                     <<Tr("", 1, 6)>>, <<Tr("", 1, 7)>> >>,
+           final |-> fin]
+    IN  { mk(o1, o2, acts, fin, r2) :
+            o1 \in {P1, P2, PR}, o2 \in {P1, P2, PR},
+            acts \in { <<7, 3>>, <<3, 7>>, <<3, 4>>, <<4, 3, 7>>, <<7, 4>>, <<3, 5>>, <<5, 3, 4>> },
+            fin \in { <<2, 7>>, <<7, 2>>, <<2>>, <<2, 7, 2>> }, r2 \in {0, 3} }
+
+(* BigRew: rewards in the millions whose relative difference is tiny but    *)
+(* whose absolute difference is far above the tolerance.                    *)
+BigRewGames ==
+    LET mk(o, ra, rb, three) ==
+          [n |-> 6,
+           owner  |-> <<o, PR, PR, PR, PR, PR>>,
+           reward |-> <<0, ra, rb, 1, 0, 0>>,
+           tr |-> << IF three THEN <<Tr("a", 0, 2), Tr("c", 0, 4), Tr("b", 0, 3)>> ELSE <<Tr("a", 0, 2), Tr("b", 0, 3)>>,
+                     <<Tr("", 1, 6)>>, <<Tr("", 1, 6)>>, <<Tr("", 1, 6)>>,
+                     <<Tr("", 1, 5)>>, <<Tr("", 1, 6)>> >>,
+           final |-> <<6>>]
+    IN  { mk(o, ra, rb, three) :
+            o \in {P1, P2}, three \in BOOLEAN,
+            ra \in {3000000, 3000002, 10000000}, rb \in {3000000, 3000002, 10000007} }
 
 -----------------------------------------------------------------------------
 (* Ties: the initial state chooses between X and Y whose values are equal   *)
